@@ -4,7 +4,7 @@ worktree (demo exits 0 clean / non-zero patched, pinned suite keeps every baseli
 import json, os, re, shutil, subprocess, sys
 src, prop = sys.argv[1].rstrip("/"), sys.argv[2]
 V = os.path.dirname(os.path.dirname(os.path.abspath(__file__)))
-out = subprocess.run([os.path.join(V, "tools", "validate_mutant.sh"), src], capture_output=True, text=True).stdout.strip().splitlines()[-1]
+out = " ".join(subprocess.run([os.path.join(V, "tools", "validate_mutant.sh"), src], capture_output=True, text=True).stdout.strip().splitlines())[-600:]
 m = re.search(r"demo_clean=(\d+) demo_patched=(\d+) suite_missing=(\d+)", out)
 if not m:
     print("VALIDATION FAILED", src, out); sys.exit(1)
